@@ -83,6 +83,17 @@ static void check_pair(const Tables& t, const std::vector<double>& a, const std:
       SU_vector T2 = vb; SU_vector v2((unsigned)d, &T2[0]); T2 = ACommutator(va, v2); cmp("owner=ACommutator(A,view_of_owner)", T2, ac);
       SU_vector T3 = va; SU_vector v3((unsigned)d, &T3[0]); v3 = iCommutator(T3, vb); cmp("view_of_owner=iCommutator(owner,B)", T3, ic);
     }
+    { // operands on user storage at every offset (in doubles) from a 32-byte boundary, either side
+      alignas(64) static double pool[2][48];
+      for (int oa = 0; oa < 4; oa++) for (int ob = 0; ob < 4; ob += 3) {
+        for (int k = 0; k < n; k++) { pool[0][oa + k] = a[k]; pool[1][ob + k] = b[k]; }
+        SU_vector ea((unsigned)d, pool[0] + oa), eb((unsigned)d, pool[1] + ob);
+        double g1 = ea * eb, g2 = eb * ea, g3 = ea * vb, g4 = va * eb, g5 = SUTrace<0>(ea, eb);
+        if (!(std::fabs(g1 - tr) <= ttol && std::fabs(g2 - tr) <= ttol && std::fabs(g3 - tr) <= ttol && std::fabs(g4 - tr) <= ttol && std::fabs(g5 - tr) <= ttol))
+          violation("operator*:trace-mismatch:external-operand-offset:d=" + std::to_string(d), J().i("d", d).i("offset_a", oa).i("offset_b", ob).arr("a", a).arr("b", b).arr("got", std::vector<double>{g1, g2, g3, g4, g5}).num("want", tr).done());
+        SU_vector r1(iCommutator(ea, eb)); cmp("iCommutator(external-operands)", r1, ic); SU_vector r2(ACommutator(ea, eb)); cmp("ACommutator(external-operands)", r2, ac);
+      }
+    }
     double t0 = SUTrace<0>(va, vb);
     if (!ref::biteq(t0, got) && !(std::fabs(t0 - got) <= ttol)) violation("SUTrace<0>:differs-from-operator*", J().i("d", d).arr("a", a).arr("b", b).done());
     SU_vector aa = SU_vector::make_aligned(d), ab = SU_vector::make_aligned(d);
